@@ -412,6 +412,7 @@ type FuncContract struct {
 	LemmaSig []string // kinds of lemma params: int, seq, bool
 	NoSweep  bool
 	Inline   bool // callers lower the body in place instead of using the contract
+	DeclPkg  string // package whose contract file declares this contract (names in its clauses resolve there)
 }
 
 type TypeInvariant struct {
@@ -636,7 +637,7 @@ func (cs *Contracts) parseContractText(pkgPath, file string, text string, baseLi
 			cur = nil
 			ordinals = map[string]int{}
 		case first == "func" || strings.HasPrefix(t, "assume func") || strings.HasPrefix(t, "pure func") || strings.HasPrefix(t, "assume pure func"):
-			fc := &FuncContract{File: file, Line: it.line}
+			fc := &FuncContract{File: file, Line: it.line, DeclPkg: pkgPath}
 			hdr := t
 			if strings.HasPrefix(hdr, "assume ") {
 				fc.Assumed = true
